@@ -11,8 +11,16 @@ import StraxModel.Lemmas.NetOutcome
     reachable state of the transition system of Model/Mailbox.lean (flags, explicit notifications), i.e. for every
     schedule: `kill_wakes_all`, `killed_reader_raises`, `force_killed_sender_raises`, `send_rechecks_after_wait`.
     These are what makes the guard semantics of Model/Net.lean sound for kills.
-  * PostOffice level: the single-thread bus + `SingleThreadProcessor.iter` for ALL producer scripts.
-  * Net level: `ThreadedMailboxProcessor` as a net (Model/Net.lean).
+  * PostOffice level: the single-thread bus + `SingleThreadProcessor.iter` for ALL producer scripts; the two statements
+    about the epilogue are `_partial` (hypothesis: no saver closed yet / no failing close) because of the open finding D7,
+    with `decide` witnesses of the masking.
+  * Net level: `ThreadedMailboxProcessor` as a net (Model/Net.lean; divider kills its source first, consumer kills the
+    target first — both tied to the real code by the end-state correspondence `net/dynamics`).  `executions_finite` /
+    `schedule_length_bounded` for every net; everything else is `_partial`: proved under `Net.TreeNet` (no multi-output
+    plugin, no reconvergent graph — also no lag-free diamond —, every reader drains its inputs).  `wire ⇒ TreeNet` is
+    proved for finite families only (`wire_treeNet_partial`, `wire_treeNet_merge_partial`, by `decide +kernel`); the
+    general lemma is unproved, the driver evaluates `TreeNet` on every real wiring of the check instead.
+  27 theorems: 13 full, 10 `_partial`, 4 witnesses (`_counterexample`: D7 twice, D10, the divider before D28's fix).
 -/
 namespace Strax.C06
 open Strax Strax.Mailbox
